@@ -194,6 +194,13 @@ async def _actor_mode(sim, sc, out):
                 except ValueError:
                     log.append(("eager-refused", op[1]))
                     continue
+                except Exception:  # noqa: BLE001
+                    # defensive user code: a broad handler around the eager response must not intercept it
+                    if not sc.get("broad_except", True):
+                        raise
+                    rec.note("after_eager", "m")
+                    log.append(("after-eager",))
+                    continue
                 rec.note("after_eager", "m")
                 log.append(("after-eager",))
         log.append(("body-end",))
